@@ -610,7 +610,8 @@ static int restore_interior_string (char **val, svalue_t * sv) {
 
 static int parse_numeric (char **cpp, char c, svalue_t * dest) {
   char *cp = *cpp;
-  int res, neg;
+  uint64_t res;	/* LPC integers are 64-bit; the magnitude of INT64_MIN fits */
+  int neg;
 
   if (c == '-')
     {
@@ -644,7 +645,7 @@ static int parse_numeric (char **cpp, char c, svalue_t * dest) {
         }
       while ((c = *cp++) && isdigit (c));
 
-      f1 += res;
+      f1 += (double)res;
       if (c == 'e')
         {
           int expo = 0;
@@ -688,7 +689,7 @@ static int parse_numeric (char **cpp, char c, svalue_t * dest) {
               expo *= 10;
               expo += (c - '0');
             }
-          f1 = res * pow (10.0, expo);
+          f1 = (double)res * pow (10.0, expo);
         }
       else if (c == '-')
         {
@@ -697,7 +698,7 @@ static int parse_numeric (char **cpp, char c, svalue_t * dest) {
               expo *= 10;
               expo += (c - '0');
             }
-          f1 = res * pow (10.0, -expo);
+          f1 = (double)res * pow (10.0, -expo);
         }
       else
         return 0;
@@ -710,7 +711,7 @@ static int parse_numeric (char **cpp, char c, svalue_t * dest) {
   else
     {
       dest->type = T_NUMBER;
-      dest->u.number = (neg ? -res : res);
+      dest->u.number = (int64_t)(neg ? (uint64_t)0 - res : res);
       *cpp = cp;
       return 1;
     }
